@@ -22,3 +22,18 @@ K("awkward_regularize_rangeslice",
            "implies(posstep, 0 <= start[0] and start[0] <= stop[0] and stop[0] <= length)",
            "implies(not posstep, -1 <= stop[0] and stop[0] <= start[0] and start[0] <= length - 1)"],
   serves=["C01", "C12", "C18"])
+
+
+def LE(s, e, n):
+    return "forall(q, 0, %s, %s[q] <= %s[q])" % (n, s, e)
+
+
+K("awkward_ListArray_getitem_next_range",
+  requires=[LE("fromstarts", "fromstops", "lenstarts"), "step != 0"],
+  extents={"tooffsets": "lenstarts + 1"},
+  notes="calls awkward_regularize_rangeslice: verified modularly against that function's contract",
+  serves=["C01", "C12", "C13"])
+
+K("awkward_ListArray_getitem_next_range_carrylength",
+  requires=[LE("fromstarts", "fromstops", "lenstarts"), "step != 0"],
+  serves=["C01", "C12", "C13"])
